@@ -1655,4 +1655,16 @@ theorem serFold_bodyLen (a : Bytes) : ∀ (l : List (Bytes × Bytes)) (s : Ser),
         · exact absurd (by rw [← heq]) hcl
         · exact ih'.2 (by rw [hstep]; exact hn) v k hmem hk
 
+theorem credit_fold (c : Credit) (acks : List Nat) :
+    (acks.foldl Credit.consume c).released = c.released + (acks.sum - c.skip)
+    ∧ (acks.foldl Credit.consume c).skip = c.skip - acks.sum := by
+  induction acks generalizing c with
+  | nil => simp
+  | cons n ns ih =>
+    obtain ⟨h1, h2⟩ := ih (c.consume n)
+    simp only [List.foldl_cons, List.sum_cons]
+    rw [h1, h2]
+    simp only [Credit.consume]
+    constructor <;> omega
+
 end TT.Fwd
